@@ -1,6 +1,6 @@
 from flamapy.core.transformations import ModelToText
 
-from flamapy.core.models.ast import Node
+from flamapy.core.models.ast import Node, ASTOperation
 from flamapy.metamodels.fm_metamodel.models import (
     Feature,
     FeatureModel,
@@ -122,19 +122,16 @@ class AFMWriter(ModelToText):
         return result
 
     def recursive_constraint_read(self, node: Node) -> str:
+        if not node.is_op():
+            return str(node.data)
 
-        data = node.data
-        if node.is_op():
-            data = data.value.upper()
+        # AFM uses the operators' names as keywords, except for the equivalence (IFF)
+        operator = 'IFF' if node.data == ASTOperation.EQUIVALENCE else node.data.value.upper()
+        if node.is_unary_op():
+            return operator + " " + self._read_operand(node.left)
+        return self._read_operand(node.left) + " " + operator + " " + self._read_operand(node.right)
 
-        if node.left and node.right:
-            result = self.recursive_constraint_read(
-                node.left) + data + self.recursive_constraint_read(node.right)
-        elif not node.left and node.right:
-            result = data + self.recursive_constraint_read(node.right)
-        elif node.left and not node.right:
-            result = self.recursive_constraint_read(node.left) + node.data
-        else:
-            result = " " + data + " "
-
-        return result
+    def _read_operand(self, node: Node) -> str:
+        """Compound operands are enclosed in parentheses to preserve the structure."""
+        result = self.recursive_constraint_read(node)
+        return "(" + result + ")" if node.is_op() else result
